@@ -2061,7 +2061,7 @@ class NDNav(Nav):
         subschema = cast(ArraySchema, self.schema).items
 
         base_location = cast(ArrayLocation, self.location)
-        if index >= base_location.item_count:
+        if index < 0 or index >= base_location.item_count:
             raise IndexError
         item_offset = base_location.item_size * index
         item_location = LocationMaker(
